@@ -319,6 +319,38 @@ def snapshot_installed_follower_leads(**kw):
     return sc.rec
 
 
+def deposed_leader_waiters_share_positions(**kw):
+    """a leader that is cut off stores calls (with callbacks) that never replicate; it is deposed, learns the new leader,
+    and the same node makes further calls, which the new leader stores at the SAME positions behind its no-op: two
+    callers wait on this node for one position under different terms.  When the position is applied the caller of the
+    old term is told DISCARDED and the caller of the new term SUCCESS - each callback fires exactly once (seed C19-r6:
+    one waiter per position, the second registration silently replaces the first)."""
+    sc = Script(base_cfg([1, 2, 3], fallback=100000), **kw)
+    s = sc.s
+    s.boot()
+    sc.elect(1)
+    sc.settle([1, 2, 3], 2)
+    sc.isolate(1)
+    for _ in range(3):
+        s.submit(1, size=5, cb=True)
+    s.tick(1, 11)                      # stored at 1 only, their callers wait for the commit
+    sc.elect_until(2, [3])
+    sc.settle([2, 3], 2)               # 2's no-op takes the first of those positions
+    sc.join(1)
+    s.tick(2, 11)
+    sc.flush(2, 1)                     # 1 learns the new leader (and cuts its entries)
+    sc.flush(1, 2)
+    for _ in range(3):
+        s.submit(1, size=5, cb=True)
+    s.tick(1, 11)                      # forwarded to 2
+    sc.flush(1, 2)
+    s.tick(2, 11)                      # stored behind the no-op; the answers (with the positions) go out before the entries
+    while sc.head_type(2, 1) == 'apply_command_response':
+        s.deliver(2, 1)                # node 1 files the new callers under positions the old ones still wait for
+    sc.settle([1, 2, 3], 6)
+    return sc.rec
+
+
 def forwarded(**kw):
     """commands submitted on a follower while the leader changes"""
     sc = Script(base_cfg([1, 2, 3]), **kw)
@@ -1467,6 +1499,52 @@ def joiner_snapshot_lists_itself(**kw):
     return sc.rec
 
 
+def member_entry_behind_stored_commit(**kw):
+    """dynamic membership with journal files: a follower appends and applies an 'add', is stopped before the journal's
+    one-second timer has stored a commit index that covers the entry, and is started again with its original member
+    list.  The entry sits in its journal behind the stored commit index: it takes effect when it is applied after the
+    restart (seed C10-r6: the 'replaying the journal' state is switched off after the first apply pass, which ends at
+    the STORED commit index).  Then the same with a removal."""
+    sc = Script(base_cfg([1, 2, 3], dyn=True, journal='file', fallback=100000), **kw)
+    s = sc.s
+    s.boot()
+    sc.elect_until(1, [2, 3])
+    sc.settle([1, 2, 3], 3)
+    s.clock[4] = s.clock.get(4, 0) + 1
+    sc.rec.do(('restart', 4, [1, 2, 3], s.clock[4], s.rnd()))
+    s.alive.add(4)
+    s.voters.append(4)
+    sc.rec.do(('admin', 1, True, 4, 801))
+    s.tick(1, 11)
+    for x in (1, 2, 3):
+        s.connect(4, x)
+        s.connect(x, 4)
+    sc.flush(1, 2)
+    sc.flush(2, 1)
+    s.tick(1, 11)
+    sc.flush(1, 2)                     # node 2 learns that the entry is committed ...
+    s.tick(2, 1)                       # ... and applies it, less than a second after the last stored commit index
+    s.kill(2)
+    s.members = [1, 2, 3]              # restarted with the list it was first started with
+    s.restart(2)
+    s.members = [1, 2, 3, 4]
+    s.connect(2, 4)
+    s.connect(4, 2)
+    sc.settle([1, 2, 3, 4], 6)
+    sc.rec.do(('admin', 1, False, 3, 802))
+    s.tick(1, 11)
+    sc.flush(1, 2)
+    sc.flush(2, 1)
+    s.tick(1, 11)
+    sc.flush(1, 2)
+    s.tick(2, 1)
+    s.kill(2)
+    s.members = [1, 2, 3]
+    s.restart(2)
+    sc.settle([1, 2, 4], 6)
+    return sc.rec
+
+
 def journal_cut_after_compaction(**kw):
     """a journaled follower whose journal has been through a head drop (log compaction: clear + re-append) later has
     to cut an uncommitted suffix for a new leader, with records of different sizes around the cut point, appends and
@@ -1776,7 +1854,7 @@ def big_entry_index_reused(**kw):
 
 
 SCENARIOS = {'d7': d7, 'd8': d8, 'd17': d17, 'd16': d16, 'd1': d1, 'd20': d20,
-             'snapshot_catchup': snapshot_catchup, 'snapshot_installed_follower_leads': snapshot_installed_follower_leads, 'snapshot_sent_long_after_it_was_taken': snapshot_sent_long_after_it_was_taken, 'forwarded': forwarded,
+             'snapshot_catchup': snapshot_catchup, 'deposed_leader_waiters_share_positions': deposed_leader_waiters_share_positions, 'snapshot_installed_follower_leads': snapshot_installed_follower_leads, 'snapshot_sent_long_after_it_was_taken': snapshot_sent_long_after_it_was_taken, 'forwarded': forwarded,
              'restart_double_vote': restart_double_vote, 'd18': d18, 'd10': d10, 'd19': d19, 'd6': d6,
              'ser_fork': ser_fork, 'ser_custom': ser_custom, 'fig8': fig8, 'stale_match_reelected': stale_match_reelected,
              'stale_cursor': stale_cursor, 'compact_during_install': compact_during_install,
@@ -1793,6 +1871,7 @@ SCENARIOS = {'d7': d7, 'd8': d8, 'd17': d17, 'd16': d16, 'd1': d1, 'd20': d20,
              'readded_address_partial_replay': readded_address_partial_replay,
              'joiner_list_read_during_pending_change': joiner_list_read_during_pending_change,
              'joiner_snapshot_lists_itself': joiner_snapshot_lists_itself,
+             'member_entry_behind_stored_commit': member_entry_behind_stored_commit,
              'journal_cut_after_compaction': journal_cut_after_compaction,
              'snapshot_install_changes_cluster_size': snapshot_install_changes_cluster_size,
              'chunk_keepalive_is_not_an_ack': chunk_keepalive_is_not_an_ack,
